@@ -111,7 +111,7 @@ def cases(draw, tier):
             "obs_col": draw(st.sampled_from(["#OTU ID", "#OTU ID", "Taxon",
                                              "#Gene", "Feature ID"])),
             "export": draw(st.sampled_from(["to_tsv", "str", "direct_io",
-                                            "convert"])),
+                                            "convert", "convert_api"])),
             "import": draw(st.sampled_from(["lines", "stringio", "path",
                                             "path_nl", "gzip", "readlines",
                                             "convert_json",
@@ -151,6 +151,16 @@ def export(t, case, d):
         sio = io.StringIO()
         t.to_tsv(direct_io=sio, **kw)
         return sio.getvalue()
+    if how == "convert_api":
+        # the library function behind the command, on a file of the table
+        from biom.parse import convert_biom_to_table
+        src = os.path.join(d, "export-src.biom")
+        with open(src, "w", encoding="utf8") as f:
+            f.write(t.to_json("vf"))
+        if md == "none":
+            return convert_biom_to_table(src)
+        return convert_biom_to_table(src, "tax", col,
+                                     kw["metadata_formatter"])
     # the real `biom convert --to-tsv` command on a JSON file of the table
     from ..cli import command
     convert = command("convert")
@@ -333,3 +343,22 @@ REGRESSIONS = [
      "md": "taxonomy", "colname": "taxonomy", "export": "convert",
      "import": "convert_hdf5", "sub": True},
 ]
+
+
+def _long(n, m, export_, import_):
+    """Pinned cases with one axis one past a power of two (writers that
+    stream or work block-wise beyond some size)."""
+    rows = [[float((i * 31 + j * 17) % 89) / 4 if (i + j) % 3 else 0.0
+             for j in range(m)] for i in range(n)]
+    return {"table": {"obs": ["o%d" % i for i in range(n)],
+                      "samp": ["s%d" % j for j in range(m)], "rows": rows,
+                      "obs_md": None, "samp_md": None, "type": None,
+                      "form": "dense", "history": []},
+            "md": "none", "colname": None, "export": export_,
+            "import": import_}
+
+
+REGRESSIONS += [_long(8193, 2, "convert", "path"),
+                _long(2, 8193, "convert", "gzip"),
+                _long(16385, 1, "direct_io", "lines"),
+                _long(4097, 3, "convert_api", "stringio")]
